@@ -687,6 +687,9 @@ func (fi *FuncInfo) lenOf(v ssa.Value) Lin {
 					return fi.lenOf(st.Val)
 				}
 			}
+			if l, ok := fi.mergedStoreLen(x); ok {
+				return l
+			}
 		}
 	}
 	if ld, ok := v.(*ssa.UnOp); ok && ld.Op == token.MUL {
@@ -1945,4 +1948,84 @@ func sharesAtom(a, b Lin) bool {
 		}
 	}
 	return false
+}
+
+// mergedStoreLen: every writer that reaches the load is a direct store to the
+// same path, all stored values have the same length form (over values that
+// are not themselves loads of the field), and no path from the entry reaches
+// the load without passing one of the stores: the loaded slice has that length.
+func (fi *FuncInfo) mergedStoreLen(ld *ssa.UnOp) (Lin, bool) {
+	f := fieldOfAddr(ld.X)
+	if f == nil {
+		return Lin{}, false
+	}
+	fi.computeWriters()
+	r0, p0, ok := pathStr(ld.X)
+	if !ok {
+		return Lin{}, false
+	}
+	var stores []*ssa.Store
+	for _, w := range fi.writers[f] {
+		if !fi.instrReaches(w, ld) {
+			continue
+		}
+		st, ok := w.(*ssa.Store)
+		if !ok || fi.instrReaches(ld, st) {
+			return Lin{}, false
+		}
+		r, p, ok := pathStr(st.Addr)
+		if !ok || r != r0 || p != p0 {
+			return Lin{}, false
+		}
+		stores = append(stores, st)
+	}
+	if len(stores) < 2 {
+		return Lin{}, false
+	}
+	var l Lin
+	for i, st := range stores {
+		var li Lin
+		switch v := st.Val.(type) {
+		case *ssa.MakeSlice:
+			li = fi.lin(v.Len)
+		case *ssa.Slice:
+			if v.High == nil {
+				return Lin{}, false
+			}
+			li = fi.lin(v.High)
+			if v.Low != nil {
+				li = li.sub(fi.lin(v.Low))
+			}
+		default:
+			return Lin{}, false
+		}
+		if i == 0 {
+			l = li
+		} else if !l.eq(li) {
+			return Lin{}, false
+		}
+	}
+	// coverage: entry cannot reach the load avoiding all store blocks
+	avoid := map[*ssa.BasicBlock]bool{}
+	for _, st := range stores {
+		if st.Block() == ld.Block() {
+			return Lin{}, false
+		}
+		avoid[st.Block()] = true
+	}
+	seen := map[*ssa.BasicBlock]bool{}
+	stack := []*ssa.BasicBlock{fi.fn.Blocks[0]}
+	for len(stack) > 0 {
+		b := stack[len(stack)-1]
+		stack = stack[:len(stack)-1]
+		if seen[b] || avoid[b] {
+			continue
+		}
+		seen[b] = true
+		if b == ld.Block() {
+			return Lin{}, false
+		}
+		stack = append(stack, b.Succs...)
+	}
+	return l, true
 }
